@@ -147,12 +147,16 @@ package compiler
 //@   assumes forall j3 in 0..len(portions) :: typeis(portions[j3], "*parser.AllotmentPortionConstContext") || typeis(portions[j3], "*parser.AllotmentPortionVarContext") || typeis(portions[j3], "*parser.AllotmentPortionRemainingContext")
 //@   ensures ret == nil ==> tstack == snoc(old(tstack), code(7, len(portions))) // C12 C08
 //@   ensures grows(p) && pvInv(p)
+// C03: an allotment is accepted only when its known portions add up to exactly 100% with nothing left open, or to less
+// than 100% with a `remaining` to take the rest (total: the sum the function accumulated over the constant portions)
+//@   ensures ret == nil ==> (val(local(total)) == toReal(1) && !local(hasVariable) && !local(hasRemaining)) || (val(local(total)) < toReal(1) && local(hasRemaining)) // C03
 //@   loop 1 invariant 0 - 1 <= i && i <= len(portions) - 1 && pvInv(p) && grows(p)
 //@   loop 1 invariant len(tstack) == len(old(tstack)) + (len(portions) - 1 - i)
 //@   loop 1 invariant forall j1 in 0..len(old(tstack)) :: tstack[j1] == old(tstack)[j1]
 //@   loop 1 invariant forall j2 in len(old(tstack))..len(tstack) :: tstack[j2] == 6
 //@   modifies parseVisitor.instructions, parseVisitor.resources, ghost tstack
 //@   property C12 C08
+//@   alsofor C03
 
 // ---- statements leave the stack as they found it
 //@ func (*compiler.parseVisitor).VisitSetTxMeta
@@ -194,10 +198,17 @@ package compiler
 //@   requires pvInv(p)
 //@   alsofor C12 C08
 
-// not under contract yet: a call may change anything (no fact is assumed about it)
+// C02: every account a source may draw from is recorded in the visitor's table of sources, whatever the shape of the
+// source and whether it takes an amount or everything ([ASSET *]): that table becomes Program.Sources, and the resolved
+// sources are the accounts the command write-locks. (Callers assume nothing else about a call: it may change anything.)
 //@ func (*compiler.parseVisitor).VisitSource
+//@   requires p != nil
+//@   ensures ret3 == nil ==> (forall a5 machine.Address :: has(ret0, a5) ==> has(p.sources, a5)) // C02
+//@   loop 5 invariant forall a6 machine.Address :: in(a6, visited) ==> has(p.sources, a6)
 //@   modifies all
-//@   trusted nothing is assumed: every heap component and ghost variable is forgotten at a call
+// (only the clause above is claimed: the preconditions of the code generation helpers it calls belong to C12 / C08,
+// where this function is not under contract)
+//@   alsofor C02
 
 // every listed account gets an entry in the table of balances the machine must load
 //@ func (*compiler.parseVisitor).setNeededBalances
@@ -239,3 +250,31 @@ package compiler
 //@   modifies nothing
 //@   nopanic
 //@   property C01 C12
+
+// ---- C08 C12: a program the language rejects is refused. Syntax errors are found by two recognizers, the lexer (a
+// character no token starts with) and the parser; each reports to the error listeners registered on it. CompileFull
+// refuses the text when its own listener has collected an error, so that listener must be the one registered on both
+// recognizers when the parse starts. errSink: the listener that receives the errors of a recognizer (ANTLR's protocol,
+// assumed: RemoveErrorListeners drops the console listener, AddErrorListener registers one).
+//@ ghost errSink map[ref]any
+//@ extern func (*github.com/antlr/antlr4/runtime/Go/antlr.BaseRecognizer).RemoveErrorListeners
+//@   update errSink = put(errSink, b, anyof(0))
+//@   modifies ghost errSink
+//@ extern func (*github.com/antlr/antlr4/runtime/Go/antlr.BaseRecognizer).AddErrorListener
+//@   update errSink = put(errSink, b, listener)
+//@   modifies ghost errSink
+//@ extern func github.com/antlr/antlr4/runtime/Go/antlr.NewInputStream
+//@   pure
+//@ extern func github.com/antlr/antlr4/runtime/Go/antlr.NewCommonTokenStream
+//@   pure
+//@ extern func parser.NewNumScriptLexer
+//@   ensures ret != nil && ret.BaseLexer != nil && ret.BaseLexer.BaseRecognizer != nil
+//@   pure
+//@ extern func parser.NewNumScriptParser
+//@   ensures ret != nil && ret.BaseParser != nil && ret.BaseParser.BaseRecognizer != nil
+//@   pure
+//@ extern func (*parser.NumScriptParser).Script
+//@   requires in compiler.CompileFull: errSink[p.BaseParser.BaseRecognizer] == anyof(local(errListener)) && errSink[local(lexer).BaseLexer.BaseRecognizer] == anyof(local(errListener)) // C08 C12
+//@   modifies reachable
+//@ func compiler.CompileFull
+//@   alsofor C08 C12
